@@ -356,6 +356,13 @@ func (u UnitBytes) MarshalJSON() ([]byte, error) {
 		for name''', "opt-in flag set on the caller's project (SEC-3 / IMM)"),
  ("C20", "carrier-kept", "K", "loader/loader.go", '''					delete(ext, types.SecretConfigXValue)
 ''', '', "secret value stays in the extensions and is rendered (SEC-4)"),
+ ("C15", "config-refs-into-secret-set", "K", "types/project.go", '''			requiredConfigs[v.Source] = struct{}{}''', '''			requiredSecrets[v.Source] = struct{}{}''', "config references recorded in the set that filters the secrets (PRUNEREFS-kind)"),
+ ("C09", "json-section-under-other-key", "K", "types/project.go", '''		m["volumes"] = src.Volumes''', '''		m["volume"] = src.Volumes''', "a section rendered under a key that is not its tag (MARSHALMAP-key)"),
+ ("C08", "float32-asked-for-float64", "K", "loader/interpolate.go", '''	return strconv.ParseFloat(value, 64)''', '''	return strconv.ParseFloat(value, 32)''', "size smaller than the type returned (PARSEWIDTH)"),
+ ("C18", "key-trim-dropped", "K", "dotenv/parser.go", '''	key = strings.TrimRightFunc(key, unicode.IsSpace)
+''', '''	key = strings.TrimRight(key, " ")
+''', "the key is no longer trimmed by a class (KEYTRIM)"),
+ ("C12", "evalsymlinks-of-parent", "K", "utils/pathutils.go", '''			target, err := filepath.EvalSymlinks(currentPath)''', '''			target, err := filepath.EvalSymlinks(filepath.Dir(currentPath))''', "the path evaluated is not the path tested (SYMEVAL)"),
 ]
 
 
